@@ -412,6 +412,10 @@ pub fn run(opts: &Opts) -> i32 {
     rep.require("valid_filters", 1000);
     rep.require("pairs_matching", 10_000);
     rep.require("cover_claims", 1000);
+    // connection level: SUBSCRIBE / UNSUBSCRIBE with invalid filters (skipped in the interpreter stage)
+    if std::env::var("VERIF_SANITIZER").as_deref() != Ok("miri") {
+        super::c18_conn::run_part(opts, &rep);
+    }
     rep.finish()
 }
 
